@@ -16,9 +16,8 @@ from collections import Counter
 from unittest import mock
 
 import numpy as np
-from hypothesis import strategies as st
 
-from vf import core, gen
+from vf import core
 from vf import ident_rdm as idr
 from vf.core import SubCheck, Enumeration, Violation, lib, require
 from vf.ident_rdm import RID, CID, norm, same_value
@@ -31,19 +30,23 @@ from rsatoolbox.rdm.combine import from_partials
 MAX_RDM = 12
 MAX_COND = 9
 
-RULE = ("Hypothesis draws a family of 1-3 RDMs objects over the same 1-6 conditions (n_rdm 1-4, "
-        "values identity-encoding / dyadic grid / small ints with NaN entries, 0-2 user pattern "
-        "and rdm descriptors of type str/int with and without duplicates held in lists or arrays, "
-        "object-level descriptor equal or differing, members list the conditions in different "
-        "orders, constructor fed with vectors, matrices or a 1-D vector) and a history of 1-25 "
-        "(thorough 1-50) op records with abstract arguments over 17 operation kinds; check(case) "
-        "interprets it against the live objects and an id-only reference model and asserts the "
-        "hidden-identity invariant after every step. Non-trivial: the history executed >=2 "
-        "structural ops of different kinds including one re-ordering op (reorder, sort_by, "
-        "permute_rdms, concat of objects in differing order) in a family with >=3 conditions; "
+RULE = ("Hypothesis draws a family of 1-3 RDMs objects over the same 1-6 conditions (n_rdm 1-4; "
+        "values identity-encoding / dyadic grid / small ints, NaN entries in a quarter of the "
+        "members; 0-2 user pattern and rdm descriptors of type str/int, with and without duplicate "
+        "values, held in lists or arrays; an object-level descriptor equal or differing between "
+        "members; members list the conditions in different orders; constructor fed with vectors, "
+        "matrices or a 1-D vector) and a history of 1-25 (history_long: 20-50) op records with "
+        "abstract arguments (pool position counted from the newest object, indices modulo the "
+        "current size, bit masks over the distinct descriptor values, permutation seeds) over 16 "
+        "operation kinds under four op-weight profiles; check(case) interprets the history against "
+        "the live objects and an id-only reference model and asserts the hidden-identity invariant "
+        "after every step. Non-trivial: the history executed >=2 structural ops of different kinds "
+        "including one effective re-ordering (reorder, sort_by, permute_rdms with a non-identity "
+        "permutation, concat of objects in differing order) in a family with >=3 conditions; "
         "distinct by SHA1 of the case. Exhaustive: all op sequences of length <=2 (quick) / <=3 "
-        "(thorough) from a fixed menu of 34 op instances on a 2x3 object with a 1-RDM sibling; "
-        "n_cond recovery through the constructor for every n in 1..2000.")
+        "(thorough) from a fixed menu of 36 op instances on a 2x3 object with a 1-RDM sibling in "
+        "another condition order; n_cond recovery through the constructor for every n in 1..2000 "
+        "(full vector<->matrix comparison up to n=120 and at 8 larger sizes).")
 
 ASSUMPTIONS = [
     "the library-managed 'index' descriptors and the 'p_inv' gimmick entry are not asserted "
@@ -62,6 +65,10 @@ ASSUMPTIONS = [
     "order over duplicate labels is ambiguous); slices, boolean masks and empty selections are "
     "outside the generated domain",
     "the dissimilarity_measure is not part of the property and is not asserted",
+    "to_dict hands out the object's internals for saving; the dictionary round trip is made "
+    "through a deep copy (serialisation boundary) - in-memory sharing of that dict is not asserted",
+    "a library exception on generated (in-domain) arguments is a violation "
+    "(signature raises:<op>:<type>); nothing is rejected",
 ]
 
 
@@ -362,21 +369,36 @@ class Run:
         desc = [norm(v) for v in e.obj.pattern_descriptors[name]]
         n = len(desc)
         method = rec['method']
-        if method != 'alpha' and len(distinct(desc)) < n:
+        dups = len(distinct(desc)) < n
+        if method != 'alpha' and dups and not rec.get('probe_duplicates'):
+            # an explicit order over duplicate labels is ambiguous: excluded by construction
             self.labels['diverted:sort_by-list-on-duplicates'] += 1
             method = 'alpha'
         if method == 'alpha':
             op = 'sort_by:alpha'
             order = sorted(range(n), key=lambda i: (sort_key(desc[i]), i))   # sorted and stable
             arg = 'alpha'
-            if len(distinct(desc)) < n:
+            if dups:
                 self.labels['sort_by:alpha-with-ties'] += 1
         else:
             op = 'sort_by:' + ('array' if method == 'array' else 'list')
+            if dups:
+                op = 'sort_by:list-duplicates'     # only reachable from the probe file
             order = perm_from_seed(rec['perm'], n)
             wanted = [desc[i] for i in order]
             arg = np.array(wanted) if method == 'array' else list(wanted)
-        self.call(op, e.obj.sort_by, reindex=bool(rec.get('reindex', True)), **{name: arg})
+        kwargs = {name: arg}
+        # optional second key in the same call: applied one after the other (documented loop)
+        if rec.get('then') is not None and not dups:
+            key2 = keys[rec['then'] % len(keys)]
+            name2 = 'index' if key2 is None else key2
+            if name2 != name and name2 != 'index':
+                desc2 = [norm(e.obj.pattern_descriptors[name2][i]) for i in order]
+                second = sorted(range(n), key=lambda i: (sort_key(desc2[i]), i))
+                order = [order[i] for i in second]
+                kwargs[name2] = 'alpha'
+                self.labels['sort_by:two-keys'] += 1
+        self.call(op, e.obj.sort_by, reindex=bool(rec.get('reindex', True)), **kwargs)
         e.model.conds = [e.model.conds[i] for i in order]
         idr.check_object(e.obj, e.model, self.side, op)
         if order != list(range(n)):
@@ -433,6 +455,9 @@ class Run:
         cand = [x for x in self.pool if self._homogeneous(first, x)
                 and Counter(x.model.conds) == Counter(fm.conds)
                 and (x.model.conds == fm.conds or fm.unique_conds())]
+        # partners that list the conditions in another order come first (small indices)
+        cand = ([x for x in cand if x.model.conds != fm.conds]
+                + [x for x in cand if x.model.conds == fm.conds])
         others = [cand[i % len(cand)] for i in rec['others']]
         while others and first.obj.n_rdm + sum(o.obj.n_rdm for o in others) > MAX_RDM:
             others.pop()
@@ -480,6 +505,10 @@ class Run:
         cand = [x for x in self.pool if x.model.unique_conds() and self._homogeneous(first, x)]
         if first not in cand:
             raise Skip('duplicate-conditions')
+        # partners covering another set of conditions come first (small indices)
+        fset = set(first.model.conds)
+        cand = ([x for x in cand if set(x.model.conds) != fset]
+                + [x for x in cand if set(x.model.conds) == fset])
         others = [cand[i % len(cand)] for i in rec['others']]
         while others and first.obj.n_rdm + sum(o.obj.n_rdm for o in others) > MAX_RDM:
             others.pop()
@@ -708,7 +737,7 @@ def check_history(case):
 
 MENU_FAMILY = dict(
     n_cond=3, cid_first=False, measure='euclidean', has_study=True,
-    pdesc=[dict(name='cond', kind='str', values=['b10', 'a', 'b9']),
+    pdesc=[dict(name='cond', kind='str', values=['b10', 'a', 'b']),
            dict(name='cat', kind='int', values=[7, 3, 7])],
     members=[
         dict(order=[0, 1, 2], vals=[[1.0, 2.0, 3.0], [5.0, float('nan'), 7.0]],
@@ -733,6 +762,7 @@ MENU = [
     dict(op='subset_pattern', src=0, by=2, mask=2, vform='list'),
     dict(op='subset_pattern', src=0, by=3, mask=0, vform='scalar'),
     dict(op='subset_pattern', src=0, by=0, mask=4, vform='list'),
+    dict(op='subset_pattern', src=0, by=2, mask=2, vform='scalar'),
     dict(op='subsample_pattern', src=0, by=2, picks=[2, 0, 2], vform='list'),
     dict(op='subsample_pattern', src=0, by=3, picks=[0], vform='scalar'),
     dict(op='reorder', src=0, perm=[2, 0, 1], form='list'),
@@ -740,6 +770,7 @@ MENU = [
     dict(op='sort_by', src=0, by=2, method='alpha', perm=[], reindex=True),
     dict(op='sort_by', src=0, by=3, method='alpha', perm=[], reindex=False),
     dict(op='sort_by', src=0, by=1, method='list', perm=[1, 2, 0], reindex=True),
+    dict(op='sort_by', src=0, by=2, method='array', perm=[2, 0, 1], reindex=True, then=3),
     dict(op='append', src=0, other=0),
     dict(op='append', src=0, other=1),
     dict(op='concat', src=0, others=[], form='varargs', target=0),
@@ -827,12 +858,14 @@ def classify_size(case):
 _PARTS = 4
 
 SUBCHECKS = [
-    SubCheck('history', ops_gen.history_case(25), check_history, classify_history,
-             quick=240, thorough=4800, max_reject_frac=0.05,
-             doc='random histories (<=25 ops) over a family of RDMs objects; identity invariant '
-                 'after every step, bystanders unchanged'),
+    SubCheck('history_%s' % prof, ops_gen.history_case(25, profile=prof), check_history,
+             classify_history, quick=300, thorough=4000, max_reject_frac=0.05,
+             doc='random histories (<=25 ops, op weights "%s") over a family of RDMs objects; '
+                 'identity invariant after every step, bystanders unchanged' % prof)
+    for prof in ('balanced', 'ordering', 'combining', 'selecting')
+] + [
     SubCheck('history_long', ops_gen.history_case(50, min_ops=20), check_history, classify_history,
-             quick=24, thorough=1600, max_reject_frac=0.05,
+             quick=60, thorough=1600, max_reject_frac=0.05,
              doc='long histories (20-50 ops)'),
     Enumeration('sizes', enum_sizes, check_size, classify_size,
                 doc='n_cond recovered from the vector length for every n in 1..2000'),
